@@ -2,12 +2,16 @@ CLAIMS["C16"] = dict(engine="seq",
   technique="deviation-bounded exhaustive input enumeration on the real propagators against independent reference decoders (three-valued oracle), exact-size heap blocks under AddressSanitizer",
   text="Inject side: the real B3Propagator, B3PropagatorMultiHeader and JaegerPropagator inject all 256 flag bytes x 4 id pairs, every (position, nibble) one-hot, all-f, "
        "mixed-digit and zero trace id and span id (thorough: the full 483 x 243 product), contexts without a span, local and remote originals; Extract of the written headers with "
-       "the same propagator must yield a remote context with the same ids and IsSampled() equal to the original's for every flags byte; whatever is written for an invalid context "
-       "must not be installed. Extract side: 12 b3, 10 X-B3-* (three of them with a b3 header as well) and 10 uber-trace-id seeds covering the documented variants (32 / 16 digit "
-       "trace id, sampling 0 / 1 / d / missing, parent id, single + multi together) and near misses, with every single point mutation over 23 byte classes in any header of the "
-       "format (replace / insert at every position, delete, duplicate, truncate at every length, 9 tails; thorough: every pair of mutations on 6 core seeds, second one over 10 "
+       "the same propagator must yield a remote context with the same ids, IsSampled() equal to the original's for every flags byte and no other flag bit; the injected headers "
+       "themselves must be a documented form (must-accept under the independent reference decoders, which share none of Extract's leniencies) encoding the same ids and the same "
+       "sampled decision; Fields() must report exactly the keys Inject wrote; whatever is written for an invalid context must not be installed. Extract side: 12 b3, 13 X-B3-* "
+       "(three of them with a b3 header as well, two with X-B3-Flags: 1, one with X-B3-ParentSpanId) and 11 uber-trace-id seeds (one with %3A-encoded separators) covering the "
+       "documented variants (32 / 16 digit trace id, sampling 0 / 1 / d / missing, parent id, single + multi together) and near misses, with every single point mutation over 23 "
+       "byte classes in any header of the format (b3, X-B3-TraceId, -SpanId, -Sampled, -Flags, -ParentSpanId / uber-trace-id) (replace / insert at every position, delete, duplicate, truncate at every length, 9 tails; thorough: every pair of mutations on 6 core seeds, second one over 10 "
        "classes), from an empty and a populated caller context. Oracle: documented forms must be accepted with the documented meaning (left-padded 64-bit ids, d = sampled, "
        "missing sampling field = not sampled, single header wins); headers that the reference cannot decode to non-zero ids must be rejected; the rest (upper case, 1-15 / 17-31 "
-       "digit ids, undocumented sampling values, extra fields, unusable b3 with usable X-B3-*) is don't-care but, if accepted, must carry exactly the reference's ids; rejected => "
+       "digit ids, undocumented sampling values, extra fields, unusable b3 with usable X-B3-*, %3A-encoded uber-trace-id; the sampled decision when X-B3-Flags: 1 is present) is "
+       "don't-care but, if accepted, must carry exactly the reference's ids; an installed context has no trace-flag bit other than sampled (Jaeger: unless the header's flags field "
+       "itself carries other bits - debug / firehose showing up in the trace flags is not decided by the statement); rejected => "
        "the returned context is the caller's context object; carrier and caller context are never modified.",
   note=SEQ_NOTE)
